@@ -42,6 +42,8 @@ class HIM(Harness):
             user["uncertainty_handling"] = True
         if p.get("seed"):
             user["random_seed"] = 7
+        if p.get("noise_size") is not None:
+            user["noise_size"] = p["noise_size"]          # a user-supplied noise size with a target BADS finds deterministic
         opts = cached_options(D, user)
         rng = RngStub(eng)
         eng.rng = rng
@@ -56,6 +58,7 @@ class HIM(Harness):
             return to_obj(np.array(ans, dtype=object)) if n else np.zeros((0,), dtype=bool)
 
         def fun(x):
+            rng.draws.append(("target_call",))     # a noisy target draws its noise from the global generator
             if fault and eng.choose("fault"):
                 calls.append(None)
                 raise TargetFault("target failed")
@@ -130,6 +133,7 @@ class HIM(Harness):
             return out
         if p.get("seed"):
             out.ob("reseeded_before_first_draw", bool(rng.draws) and rng.draws[0] == ("seed", 7) and self_.optim_state["random_seed"] == 7)
+            out.ob("reseeded_before_first_target_call", [d[0] for d in rng.draws if d[0] in ("seed", "target_call")][:1] == ["seed"])
         out.ob("func_count_is_number_of_target_calls", fl.func_count == len(calls))
         # -- noise test ----------------------------------------------------------------------------------
         tol_noise = opts["tol_noise"]
@@ -171,7 +175,7 @@ class HIM(Harness):
                 S = np.asarray(_raw(fl.S))[: fl.Xn + 1, 0]
                 out.ob("fsd_is_logged_sd_of_incumbent", O.Or(*[O.And(O.eq(self_.yval, Y[i], 0.0), O.eq(self_.fsd, S[i], 0.0)) for i in range(len(Y))]))
             else:
-                out.ob("fsd_is_noise_size", self_.fsd == opts["noise_size"])
+                out.ob("fsd_is_noise_size", self_.fsd == opts["noise_size"] and (p.get("noise_size") is None or self_.fsd == p["noise_size"]))
         else:
             out.ob("deterministic_fsd_zero", self_.fsd == 0.0 and opts["max_fun_evals"] == Bud)
         return out
